@@ -105,6 +105,21 @@ func runDefragOne(u *Unit, lay Layout, base int, assign []int, verbose bool) (fa
 				st.freeSlots += len(d)
 				perPageDoomed = append(perPageDoomed, d)
 			}
+			if u.Order == OrdDistLast {
+				var rest, dist [][]*Slot
+				for j := range perPageDoomed {
+					isDist := false
+					for _, d := range u.Dist {
+						isDist = isDist || d == j
+					}
+					if isDist {
+						dist = append(dist, perPageDoomed[j])
+					} else {
+						rest = append(rest, perPageDoomed[j])
+					}
+				}
+				perPageDoomed = append(rest, dist...)
+			}
 			doomedAll = append(doomedAll, OrderFrees(perPageDoomed, u.Order))
 		}
 		stage = "fill-check"
@@ -121,6 +136,19 @@ func runDefragOne(u *Unit, lay Layout, base int, assign []int, verbose bool) (fa
 		}
 		if f := t.CheckAll(); f != nil {
 			return f
+		}
+		if u.Remalloc > 0 {
+			stage = "remalloc"
+			for _, ci := range infos {
+				for i := 0; i < u.Remalloc; i++ {
+					if _, f := t.Malloc(ci.sizes[i%len(ci.sizes)]); f != nil {
+						return f
+					}
+				}
+			}
+			if f := t.CheckAll(); f != nil {
+				return f
+			}
 		}
 		st.survivors = len(t.Live)
 		st.pagesBefore = a.SharedMmaps.Load()
